@@ -16,7 +16,7 @@ import threading
 
 import vlib
 
-TRACE_SPEC = ("BigNat.tla", "RigoProps.tla", "RigoTrace.tla", "RigoTrace.cfg")
+TRACE_SPEC = ("BigNat.tla", "RigoProps.tla", "RigoMon.tla", "RigoTrace.tla", "RigoTrace.cfg")
 _lock = threading.Lock()
 
 
